@@ -739,12 +739,13 @@ META = {
              "every run (PV/Model/ChanX.lean, 1500 programs, the caller retries); oracle for read(n), read(), readline(), "
              "next alike: everything returned across calls is the stream in order (a call that raised returns nothing "
              "and must leave every fetched byte ahead of the caller); list(f)/readlines() may only lose whole lines "
-             "already collected in the list they were building. Proved: read_n_keeps_data_on_exception. read() and "
-             "readline() dropped fetched chunks when a later fetch raised until /repo 3937ccc (found by this check, "
-             "fixed): the model mirrors the repaired code (tied by correspondence incl. private state, retry examples "
-             "checked by decide), legacy_*_witness theorems are about the old code (readAllOld/readlineOld); the "
-             "general no-loss theorem for read()/readline() over a raising stream is NOT proved (correspondence + oracle "
-             "only). " +
+             "already collected in the list they were building. Proved for every chunking and every placement of raising fetches: "
+             "read_n_keeps_data_on_exception, read_all_keeps_data_on_exception (a read() that returns hands out all "
+             "that was pending; one that raises leaves every fetched byte and the old read-ahead ahead of the caller) "
+             "and readline_keeps_data_on_exception (the raising half for readline()/next, any size; the returning "
+             "half over a raising stream is tied by correspondence + oracle only). read() and readline() dropped "
+             "fetched chunks when a later fetch raised until /repo 3937ccc (found by this check, fixed): the model "
+             "mirrors the repaired code, legacy_*_witness theorems are about the old code (readAllOld/readlineOld). " +
              "The BufferedFile subclasses the property's wrappers actually are — ChannelFile, ChannelStderrFile, "
              "ChannelStdinFile with their _read/_write/close overrides — are driven on every run over a recording "
              "channel (stream = what recv/recv_stderr delivered and sendall/sendall_stderr/shutdown_write received, in "
